@@ -57,10 +57,10 @@ Theorem C13_phi_counts_units_partial : Phi_count_stmt.               Proof. exac
 Print Assumptions C13_phi_counts_units_partial.
 Theorem C13_lambda_inv_is_group_exponent_partial : Lambda_inv_exponent_stmt.   Proof. exact lambda_inv_exponent_sweep. Qed.
 Print Assumptions C13_lambda_inv_is_group_exponent_partial.
-Theorem C13_lambda_is_maximal_orbit_on_prime_powers_partial : Lambda_orbit_prime_power_stmt.   Proof. exact lambda_orbit_prime_power_sweep. Qed.
-Print Assumptions C13_lambda_is_maximal_orbit_on_prime_powers_partial.
-Theorem C13_lambda_maximal_orbit_composite_refuted : Lambda_orbit_composite_refuted_stmt.   Proof. exact lambda_orbit_composite_refuted. Qed.
-Print Assumptions C13_lambda_maximal_orbit_composite_refuted.
+Theorem C13_lambda_is_maximal_orbit_size_partial : Lambda_orbit_stmt.   Proof. exact lambda_orbit_sweep. Qed.
+Print Assumptions C13_lambda_is_maximal_orbit_size_partial.
+Theorem C13_lambda_before_fix8_refuted_history : Lambda_before_fix8_refuted_stmt.   Proof. exact lambda_before_fix8_refuted. Qed.
+Print Assumptions C13_lambda_before_fix8_refuted_history.
 Theorem C13_order_is_least_exponent_partial : Order_least_stmt.      Proof. exact order_least_sweep. Qed.
 Print Assumptions C13_order_is_least_exponent_partial.
 Theorem C13_sqrootmodprime_end_to_end_partial : Sqrootmodprime_sweep_stmt.          Proof. exact sqrootmodprime_sweep. Qed.
